@@ -35,6 +35,8 @@ def run(ctx):
                 lits.append(("%d%s" % (n, cv), n * UNITS[u]))
             for q in ["0.5", "1.5", "2.25", "0.125", "3.", ".5"]:
                 lits.append((q + cv, None))
+            for q in ["0.1", "0.3", "1.2", "2.7", "0.07", "1.005"]:
+                lits.append((q + cv, ("approx", float(q) * UNITS[u])))
     extra = ["", "k", "1x", "1kk", "1 k", " 1 kb ", "1e3k", "-1k", "+5", "18446744073709551615", "18446744073709551616",
              "18446744073709551615b", "99999999999999999999k", "1.5", "1b5", "0x10", "1_000", "١k", "infk", "nank", "1kB ", "1K B"]
     for s in extra:
@@ -47,8 +49,17 @@ def run(ctx):
             a = ctx.model.ask("fn\tparse_filesize", s)
             b = ctx.harness.ask("parse_filesize", s)
             if a.startswith("some~"):
+                # decimal fraction that is no dyadic rational: the f64 product may differ in the last unit
                 ctx.count("inexact_literal")
+                mv = int(a.split(" ")[1])
+                if not b.startswith("some ") or abs(int(b.split(" ")[1]) - mv) > 1:
+                    ctx.disagree("parseFilesize (model, within 1 byte) = parse_filesize (implementation)", {"literal": s}, a, b)
+                if isinstance(want, tuple) and (not b.startswith("some ") or abs(int(b.split(" ")[1]) - want[1]) > 1.5):
+                    ctx.oracle_fail("fractional size literal does not denote number x documented multiplier (rounded down)",
+                                    {"literal": s, "level": "in-process parse_filesize"}, detail={"got": b, "want": want[1]})
                 continue
+            if isinstance(want, tuple):
+                want = None
             if a != b:
                 ctx.disagree("parseFilesize (model) = parse_filesize (implementation)", {"literal": s}, a, b)
             if want is not None and b != "some %d" % want:
